@@ -99,6 +99,55 @@ def design(ctx):
     return out
 
 
+def opopt(ctx):
+    """OpOpt: exhaustive cost-bounded search at the operation layer below the makespan hrevolve()
+    claims - two and three levels, free and costly level 0.  Diagnostic."""
+    import json
+    import os
+    from . import record
+    record.lib()
+    from checkpoint_schedules import hrevolve_sequences as hs
+    lmax = 3 if ctx.tier == "quick" else 5
+    insts = []
+    for l in range(1, lmax + 1):
+        for cv in ((1, 1, 1), (1, 0, 1), (2, 1, 1), (1, 2, 1), (1, 1), (2, 1)):
+            for (uf, ub, w, r) in ((1, 1, (0, 1, 3), (0, 1, 3)), (1, 1, (1, 2, 2), (1, 1, 4)),
+                                   (2, 1, (0, 0, 1), (0, 3, 1)), (1, 2, (0, 2, 5), (0, 2, 0))):
+                K = len(cv)
+                try:
+                    seq = hs.hrevolve(l, cv, list(w[:K]), list(r[:K]), uf, ub)
+                    mk = seq.makespan
+                except Exception:
+                    continue
+                if mk != int(mk):
+                    continue
+                insts.append({"l": l, "K": K, "cap": list(cv), "w": list(w[:K]), "r": list(r[:K]), "uf": uf, "ub": ub,
+                              "claim": int(mk)})
+    if not insts:
+        return {"instances": 0}
+    neg = dict(insts[min(5, len(insts) - 1)])
+    neg["claim"] += 1
+    insts.append(neg)                         # negative control: the library's own sequence is cheaper than this
+    path = os.path.join(ctx.dir, "opopt.json")
+    with open(path, "w") as f:
+        json.dump(insts, f)
+    r = tlc.run("OpOpt", env={"INST_FILE": path}, workers=16, timeout=3000)
+    ctx.add_run("OpOpt", r)
+    os.remove(path)
+    if not r["ok"]:
+        raise fw.Machinery(f"OpOpt failed: {(r['error'] or r['stdout'][-500:])[:500]}")
+    best = {}
+    for v in tlc.marked(r):
+        best[v[0]] = min(best.get(v[0], 10 ** 9), v[1])
+    if len(insts) not in best:
+        raise fw.Machinery("vacuity: OpOpt did not find the program of its negative control")
+    cheaper = [dict(insts[i - 1], found=t) for i, t in sorted(best.items()) if i != len(insts)]
+    return {"instances": len(insts) - 1, "lmax": lmax, "states": r["distinct"],
+            "free_level0_cheaper_than_claimed": [c for c in cheaper if c["w"][0] == 0 and c["r"][0] == 0],
+            "costly_level0_cheaper_than_claimed": [c for c in cheaper if not (c["w"][0] == 0 and c["r"][0] == 0)],
+            "negative_control_found": True}
+
+
 def run(ctx, with_design=True):
     fcfgs, ccfgs = fn_box(ctx.tier), class_box(ctx.tier)
     traces = _pmap(_rec_fn, fcfgs) + _pmap(_rec_cls, ccfgs)
@@ -128,4 +177,7 @@ def run(ctx, with_design=True):
     }
     if with_design:
         out["design_level"] = design(ctx)
+        from . import opreplay
+        out["replay_into_converter"] = opreplay.run(ctx)
+        out["operation_level_optimum"] = opopt(ctx)
     return out
